@@ -395,6 +395,35 @@ def ev_decode_under_low_recursion_limit(p, keep):
         sys.setrecursionlimit(old)
 
 
+def _nested_arrays(depth):
+    body = b''
+    for _ in range(depth):
+        body = b'A' + struct.pack('>I', len(body)) + body
+    table = b'\x01k' + body
+    args = b'\x00\x00\x01q\x00' + struct.pack('>I', len(table)) + table
+    return faults.frame_wrap(1, 1, b'\x00\x32\x00\x0a' + args)
+
+
+BUF_ABYSS = _nested_arrays(700)
+
+
+def ev_many_over_deep_frames(p, keep):
+    """A misbehaving peer sends 270 frames nested far deeper than any
+    decoder takes (700 levels: beyond the interpreter's limit). However
+    each is refused, it is over when the call returns."""
+    seen = {}
+    for _ in range(270):
+        try:
+            p.frame.unmarshal(BUF_ABYSS)
+            kind = 'decoded'
+        except RecursionError:
+            kind = 'RecursionError'
+        except Exception as exc:  # noqa
+            kind = type(exc).__name__
+        seen[kind] = seen.get(kind, 0) + 1
+    return sorted(seen.items())
+
+
 def ev_repeat_decode_mutate(p, keep):
     """The same header and method buffers decoded 130 times; after each
     decode the result is mutated in place: no later decode and no earlier
@@ -800,6 +829,7 @@ EVENTS = [
     ('decode from deep inside the call stack', ev_decode_deep_in_the_stack),
     ('decode under a lowered recursion limit',
      ev_decode_under_low_recursion_limit),
+    ('unmarshal 270 frames nested 700 deep', ev_many_over_deep_frames),
     ('unmarshal tables nested 32 deep', lambda p, keep: [
         decode(p, BUF_DEEP32)[1], decode(p, BUF_QD_DEEP32)[1]]),
 ]
